@@ -11,6 +11,22 @@ Combined Scheme stmt_block_ind3 from stmt_ind3, block_ind3, blocks_ind3.
 (* a flag of the continue pass *)
 Definition ckind (f : flag) : bool := Nat.eqb (f mod 3) 1.
 
+(* no break / continue / return at all: required of finally clauses (a jump in a finally clause would
+   override a pending jump; the semantics gives no rule to jumps out of finally and the passes guard
+   the rest of such a clause by the flag of the pending jump) *)
+Fixpoint jfree_stmt (st : stmt) : bool :=
+  match st with
+  | SBreak | SContinue | SReturn _ => false
+  | SIf _ b1 b2 | SWhile _ b1 b2 => jfree_block b1 && jfree_block b2
+  | STry b1 hs b2 b3 => jfree_block b1 && jfree_blocks hs && jfree_block b2 && jfree_block b3
+  | SWith _ b1 => jfree_block b1
+  | _ => true
+  end
+with jfree_block (b : block) : bool :=
+  match b with BNil => true | BCons st r => jfree_stmt st && jfree_block r end
+with jfree_blocks (h : blocks) : bool :=
+  match h with HNil => true | HCons b r => jfree_block b && jfree_blocks r end.
+
 Fixpoint clean_cond (c : cond) : bool :=
   match c with CUser _ => true | CNot f => negb (ckind f) | CAndNot f c' => negb (ckind f) && clean_cond c' end.
 Fixpoint clean_stmt (st : stmt) : bool :=
@@ -18,6 +34,8 @@ Fixpoint clean_stmt (st : stmt) : bool :=
   | SSet f _ => negb (ckind f)
   | SIf c b1 b2 => clean_cond c && clean_block b1 && clean_block b2
   | SWhile c b1 b2 => clean_cond c && clean_block b1 && clean_block b2
+  | STry b1 _ b2 b3 => clean_block b1 && clean_block b2 && clean_block b3 && jfree_block b3
+  | SWith _ b1 => clean_block b1
   | _ => true
   end
 with clean_block (b : block) : bool :=
@@ -95,6 +113,47 @@ Lemma cont_mono :
   (forall st c k u, snd (fst (cont_stmt c k u st)) >= k) /\ (forall b c k u cur, snd (fst (cont_block c k u cur b)) >= k).
 Proof. split; [exact (proj1 cont_mono3) | exact (proj1 (proj2 cont_mono3))]. Qed.
 
+Lemma jfree_nohit :
+  (forall st, jfree_stmt st = true -> forall c k u, snd (cont_stmt c k u st) = false) /\
+  (forall b, jfree_block b = true -> forall c k u cur, snd (cont_block c k u cur b) = false) /\
+  (forall h, jfree_blocks h = true -> forall c k u, snd (cont_blocks c k u h) = false).
+Proof.
+  apply stmt_block_ind3.
+  - intros l _ c k u; reflexivity.
+  - intros f v _ c k u; reflexivity.
+  - intros t b1 IH1 b2 IH2 J c k u. simpl in J. apply andb_true_iff in J; destruct J as [J1 J2]. simpl.
+    pose proof (IH1 J1 c k u false) as A. destruct (cont_block c k u false b1) as [[b1' k1] h1]. simpl in A; subst h1.
+    pose proof (IH2 J2 c k1 (u || false) false) as B. destruct (cont_block c k1 (u || false) false b2) as [[b2' k2] h2].
+    simpl in *; subst; reflexivity.
+  - intros t body IH1 orelse IH2 J c k u. simpl in J. apply andb_true_iff in J; destruct J as [J1 J2]. simpl.
+    destruct (cont_block (cflag k) (S k) false false body) as [[b1' k1] h1].
+    pose proof (IH2 J2 c k1 u false) as B. destruct (cont_block c k1 u false orelse) as [[b2' k2] h2]. simpl in *; exact B.
+  - intros J; discriminate.
+  - intros J; discriminate.
+  - intros l J; discriminate.
+  - intros body IH1 hs IH2 orelse IH3 final IH4 J c k u. simpl in J.
+    apply andb_true_iff in J; destruct J as [J J4]. apply andb_true_iff in J; destruct J as [J J3].
+    apply andb_true_iff in J; destruct J as [J1 J2]. simpl.
+    pose proof (IH1 J1 c k u false) as A1. destruct (cont_block c k u false body) as [[b1 k1] h1]. simpl in A1; subst h1.
+    pose proof (IH3 J3 c k1 (u || false) false) as A2. destruct (cont_block c k1 (u || false) false orelse) as [[b2 k2] h2]. simpl in A2; subst h2.
+    pose proof (IH4 J4 c k2 (u || false || false) false) as A3. destruct (cont_block c k2 (u || false || false) false final) as [[b3 k3] h3]. simpl in A3; subst h3.
+    pose proof (IH2 J2 c k3 (u || false || false || false)) as A4. destruct (cont_blocks c k3 (u || false || false || false) hs) as [[b4 k4] h4]. simpl in A4; subst h4.
+    reflexivity.
+  - intros l body IH J c k u. simpl in J |- *.
+    pose proof (IH J c k u false) as A. destruct (cont_block c k u false body) as [[b1 k1] h1]. exact A.
+  - intros l _ c k u; reflexivity.
+  - intros _ c k u cur; reflexivity.
+  - intros st IH1 r IH2 J c k u cur. simpl in J. apply andb_true_iff in J; destruct J as [J1 J2]. simpl.
+    pose proof (IH1 J1 c k u) as A. destruct (cont_stmt c k u st) as [[st' k1] h1]. simpl in A; subst h1.
+    pose proof (IH2 J2 c k1 (u || false) false) as B. destruct (cont_block c k1 (u || false) false r) as [[r' k2] h2]. simpl in B; subst h2.
+    reflexivity.
+  - intros _ c k u; reflexivity.
+  - intros b IH1 r IH2 J c k u. simpl in J. apply andb_true_iff in J; destruct J as [J1 J2]. simpl.
+    pose proof (IH1 J1 c k u false) as A. destruct (cont_block c k u false b) as [[b' k1] h1]. simpl in A; subst h1.
+    pose proof (IH2 J2 c k1 (u || false)) as B. destruct (cont_blocks c k1 (u || false) r) as [[r' k2] h2]. simpl in B; subst h2.
+    reflexivity.
+Qed.
+
 Definition cpost (c : flag) (k : nat) (o : outcome) (hit : bool) (sl sl' : store) : Prop :=
   (o = OCont -> sl' c = true /\ hit = true) /\ (o <> OCont -> sl' c = sl c) /\
   (forall h, ckind h = true -> outside_c k h -> h <> c -> sl' h = sl h).
@@ -107,7 +166,7 @@ Definition cok_stmt (st : stmt) (s : store) (d : decisions) (tr : list label) (o
 
 Definition cok_block (b : block) (s : store) (d : decisions) (tr : list label) (o : outcome) (s' : store) (d' : decisions) : Prop :=
   clean_block b = true -> forall c k u cur sl, outside_c k c -> ckind c = true -> agree s sl ->
-    (cur || snd (cont_block c k u cur b) = true -> sl c = false) ->
+    (cur = true \/ snd (cont_block c k u cur b) = true -> sl c = false) ->
     exists sl', run_block (fst (fst (cont_block c k u cur b))) sl d tr (co o) sl' d' /\ agree s' sl'
                 /\ cpost c k o (snd (cont_block c k u cur b)) sl sl'.
 
@@ -160,6 +219,23 @@ Proof.
   - intros h Kh Oh _. apply A3; [exact Kh | eapply outside_c_mono; [|exact Oh]; lia | apply outside_c_g, Oh].
 Qed.
 
+
+Lemma else_skipped c b sl d : sl c = true ->
+  run_block (if negb (is_nil b) && true then one (SIf (CNot c) b BNil) else b) sl d [] ONormal sl d.
+Proof.
+  intros H. destruct b as [|st r]; simpl; [constructor|].
+  apply run_one. change (@nil label) with (@nil label ++ []). eapply RIf; [simpl; rewrite H; reflexivity | constructor].
+Qed.
+
+Lemma else_guarded c b h1 sl d tr o sl' d' : (h1 = true -> sl c = false) ->
+  run_block b sl d tr o sl' d' ->
+  run_block (if negb (is_nil b) && h1 then one (SIf (CNot c) b BNil) else b) sl d tr o sl' d'.
+Proof.
+  intros H R. destruct (negb (is_nil b) && h1) eqn:G; [|exact R].
+  apply andb_true_iff in G. destruct G as [_ G]. apply run_one. change tr with ([] ++ tr).
+  eapply RIf; [simpl; rewrite (H G); reflexivity | exact R].
+Qed.
+
 Theorem cont_correct_all :
   (forall st s d tr o s' d', run_stmt st s d tr o s' d' ->
       cok_stmt st s d tr o s' d' /\ (clean_stmt st = true -> forall c k u, outside_c k c -> ckind c = true -> cloop_claim st s c k u d tr o s' d')) /\
@@ -189,13 +265,13 @@ Proof.
     simpl in Pre |- *. rewrite <- (ceval_agree t s sl d Ct A) in Ec.
     destruct v.
     + destruct (IH C1 c k u false sl Oc Kc A) as [sl' [R [A' Po]]].
-      { rewrite E1; simpl. intros H; apply Pre; rewrite H; reflexivity. }
+      { rewrite E1; simpl. intros [H|H]; try discriminate; apply Pre; rewrite H; reflexivity. }
       rewrite E1 in R, Po; simpl in R, Po.
       exists sl'. split; [apply run_one; eapply RIf; [exact Ec | exact R]|]. split; [exact A'|].
       destruct Po as [P1 [P2 P3]]. split; [|split; assumption].
       intros E. destruct (P1 E) as [X ->]. split; [exact X | reflexivity].
     + destruct (IH C2 c k1 (u || h1) false sl (outside_c_mono _ _ _ L1 Oc) Kc A) as [sl' [R [A' Po]]].
-      { rewrite E2; simpl. intros H; apply Pre; rewrite H; apply orb_true_r. }
+      { rewrite E2; simpl. intros [H|H]; try discriminate; apply Pre; rewrite H; apply orb_true_r. }
       rewrite E2 in R, Po; simpl in R, Po.
       exists sl'. split; [apply run_one; eapply RIf; [exact Ec | exact R]|]. split; [exact A'|].
       destruct Po as [P1 [P2 P3]]. split; [|split].
@@ -212,7 +288,9 @@ Proof.
       destruct (cont_block c k1 u false orelse) as [[orelse' k2] ho] eqn:E2.
       assert (L1 : S k <= k1) by (pose proof (proj2 cont_mono body (cflag k) (S k) false false) as X; rewrite E1 in X; exact X).
       intros sl A Pre. assert (L0 : k <= k1) by lia.
-      destruct (IO sl (outside_c_mono _ _ _ L0 Oc) Kc A Pre) as [sl' [R [A' [P1 [P2 P3]]]]]. simpl in R, P1.
+      destruct (IO sl (outside_c_mono _ _ _ L0 Oc) Kc A) as [sl' [R [A' [P1 [P2 P3]]]]].
+      { simpl. intros [H|H]; try discriminate; apply Pre; auto. }
+      simpl in R, P1.
       exists sl'. rewrite <- (ceval_agree t s sl d Ct A) in Ec.
       split; [eapply RWhileEnd; [exact Ec | exact R]|]. split; [exact A'|].
       split; [exact P1|]. split; [exact P2|]. intros h Kh Oh N. apply P3; [exact Kh | eapply outside_c_mono; [|exact Oh]; lia | exact N]. }
@@ -232,7 +310,7 @@ Proof.
       set (sl0 := if used then upd sl (cflag k) false else sl).
       assert (A0 : agree s sl0) by (unfold sl0; destruct used; [apply agree_upd_c; [apply ckind_cflag | exact A] | exact A]).
       destruct (IB sl0 (outside_c_S k) (ckind_cflag k) A0) as [sl1 [Rb [A1 Pb]]].
-      { simpl. intros U. unfold sl0. rewrite U. apply upd_same. }
+      { simpl. intros [U|U]; try discriminate. unfold sl0. rewrite U. apply upd_same. }
       simpl in Rb, Pb.
       assert (Eo : co o = ONormal) by (destruct Ho as [-> | ->]; reflexivity). rewrite Eo in Rb.
       destruct (cbody_keeps c k o used sl0 sl1 Oc Kc Pb) as [Kc1 Kh1].
@@ -262,7 +340,7 @@ Proof.
       set (sl0 := if used then upd sl (cflag k) false else sl).
       assert (A0 : agree s sl0) by (unfold sl0; destruct used; [apply agree_upd_c; [apply ckind_cflag | exact A] | exact A]).
       destruct (IB sl0 (outside_c_S k) (ckind_cflag k) A0) as [sl1 [Rb [A1 Pb]]].
-      { simpl. intros U. unfold sl0. rewrite U. apply upd_same. }
+      { simpl. intros [U|U]; try discriminate. unfold sl0. rewrite U. apply upd_same. }
       simpl in Rb, Pb.
       destruct (cbody_keeps c k OBrk used sl0 sl1 Oc Kc Pb) as [Kc1 Kh1].
       assert (S0c : sl0 c = sl c) by (unfold sl0; destruct used; [apply upd_other, outside_c_g, Oc | reflexivity]).
@@ -289,7 +367,7 @@ Proof.
       set (sl0 := if used then upd sl (cflag k) false else sl).
       assert (A0 : agree s sl0) by (unfold sl0; destruct used; [apply agree_upd_c; [apply ckind_cflag | exact A] | exact A]).
       destruct (IB sl0 (outside_c_S k) (ckind_cflag k) A0) as [sl1 [Rb [A1 Pb]]].
-      { simpl. intros U. unfold sl0. rewrite U. apply upd_same. }
+      { simpl. intros [U|U]; try discriminate. unfold sl0. rewrite U. apply upd_same. }
       simpl in Rb, Pb.
       destruct (cbody_keeps c k ORet used sl0 sl1 Oc Kc Pb) as [Kc1 Kh1].
       assert (S0c : sl0 c = sl c) by (unfold sl0; destruct used; [apply upd_other, outside_c_g, Oc | reflexivity]).
@@ -303,6 +381,78 @@ Proof.
     split; [|exact LC]. intros Cl c k u sl Oc Kc A Pre. specialize (LC Cl c k u Oc Kc). simpl in LC, Pre |- *.
     destruct (cont_block (cflag k) (S k) false false body) as [[body' k1] used]. destruct (cont_block c k1 u false orelse) as [[orelse' k2] ho].
     simpl in *. destruct (LC sl A Pre) as [sl' [R X]]. exists sl'. split; [apply run_one; exact R | exact X].
+  - (* with *)
+    intros l body s d tr o s' d' _ IHb. split; [|intros; exact I]. intros Cl c k u sl Oc Kc A Pre.
+    simpl in Cl, Pre |- *. pose proof (IHb Cl c k u false sl Oc Kc A) as IB.
+    destruct (cont_block c k u false body) as [[body' k1] h1] eqn:E1. simpl in *.
+    destruct IB as [sl' [R [A' Po]]]. { intros [H|H]; [discriminate | apply Pre, H]. }
+    exists sl'. split; [apply run_one, RWith, R|]. split; assumption.
+  - (* try: body completes, else clause, finally *)
+    intros body hs orelse final s d tr1 s1 d1 tr2 o2 s2 d2 tr3 s3 d3 _ IHb _ IHo _ IHf. split; [|intros; exact I].
+    intros Cl c k u sl Oc Kc A Pre. simpl in Cl.
+    apply andb_true_iff in Cl; destruct Cl as [Cl Jf]. apply andb_true_iff in Cl; destruct Cl as [Cl Cf].
+    apply andb_true_iff in Cl; destruct Cl as [Cb Co].
+    simpl in Pre |- *.
+    pose proof (IHb Cb c k u false sl Oc Kc A) as IB.
+    pose proof (proj1 (proj2 cont_mono3) body c k u false) as L1.
+    destruct (cont_block c k u false body) as [[body' k1] h1] eqn:E1.
+    pose proof (IHo Co c k1 (u || h1) false) as IO.
+    pose proof (proj1 (proj2 cont_mono3) orelse c k1 (u || h1) false) as L2.
+    destruct (cont_block c k1 (u || h1) false orelse) as [[orelse' k2] h2] eqn:E2.
+    pose proof (IHf Cf c k2 (u || h1 || h2) false) as IFN.
+    pose proof (proj1 (proj2 jfree_nohit) final Jf c k2 (u || h1 || h2) false) as H3.
+    destruct (cont_block c k2 (u || h1 || h2) false final) as [[final' k3] h3] eqn:E3.
+    destruct (cont_blocks c k3 (u || h1 || h2 || h3) hs) as [[hs' k4] h4] eqn:E4.
+    simpl in *. subst h3.
+    destruct IB as [sl1 [R1 [A1 [P1 [P2 P3]]]]]. { intros [H|H]; [discriminate|]. apply Pre. rewrite H; reflexivity. }
+    assert (C1 : sl1 c = sl c) by (apply P2; discriminate).
+    destruct (IO sl1 (outside_c_mono _ _ _ L1 Oc) Kc A1) as [sl2 [R2 [A2 [Q1 [Q2 Q3]]]]].
+    { intros [H|H]; [discriminate|]. rewrite C1. apply Pre. rewrite H; rewrite ?orb_true_r; reflexivity. }
+    assert (L02 : k <= k2) by lia.
+    destruct (IFN sl2 (outside_c_mono _ _ _ L02 Oc) Kc A2) as [sl3 [R3 [A3 [F1 [F2 F3]]]]]. { intros [H|H]; discriminate. }
+    assert (C3 : sl3 c = sl2 c) by (apply F2; discriminate).
+    exists sl3. split; [|split; [exact A3|]].
+    + apply run_one. eapply RTryN; [exact R1 | | exact R3].
+      apply else_guarded; [|exact R2]. intros H. rewrite C1. apply Pre. rewrite H; reflexivity.
+    + split; [|split].
+      * intros E. destruct (Q1 E) as [X Y]. split; [rewrite C3; exact X | rewrite Y; rewrite ?orb_true_r; reflexivity].
+      * intros N. rewrite C3, (Q2 N). exact C1.
+      * intros h Kh Oh N. rewrite (F3 h Kh (outside_c_mono _ _ _ L02 Oh) N), (Q3 h Kh (outside_c_mono _ _ _ L1 Oh) N). apply P3; assumption.
+  - (* try: body jumps, finally *)
+    intros body hs orelse final s d tr1 ob s1 d1 tr3 s3 d3 _ IHb Nb _ IHf. split; [|intros; exact I].
+    intros Cl c k u sl Oc Kc A Pre. simpl in Cl.
+    apply andb_true_iff in Cl; destruct Cl as [Cl Jf]. apply andb_true_iff in Cl; destruct Cl as [Cl Cf].
+    apply andb_true_iff in Cl; destruct Cl as [Cb Co].
+    simpl in Pre |- *.
+    pose proof (IHb Cb c k u false sl Oc Kc A) as IB.
+    pose proof (proj1 (proj2 cont_mono3) body c k u false) as L1.
+    destruct (cont_block c k u false body) as [[body' k1] h1] eqn:E1.
+    pose proof (proj1 (proj2 cont_mono3) orelse c k1 (u || h1) false) as L2.
+    destruct (cont_block c k1 (u || h1) false orelse) as [[orelse' k2] h2] eqn:E2.
+    pose proof (IHf Cf c k2 (u || h1 || h2) false) as IFN.
+    pose proof (proj1 (proj2 jfree_nohit) final Jf c k2 (u || h1 || h2) false) as H3.
+    destruct (cont_block c k2 (u || h1 || h2) false final) as [[final' k3] h3] eqn:E3.
+    destruct (cont_blocks c k3 (u || h1 || h2 || h3) hs) as [[hs' k4] h4] eqn:E4.
+    simpl in *. subst h3.
+    destruct IB as [sl1 [R1 [A1 [P1 [P2 P3]]]]]. { intros [H|H]; [discriminate|]. apply Pre. rewrite H; reflexivity. }
+    assert (L02 : k <= k2) by lia.
+    destruct (IFN sl1 (outside_c_mono _ _ _ L02 Oc) Kc A1) as [sl3 [R3 [A3 [F1 [F2 F3]]]]]. { intros [H|H]; discriminate. }
+    assert (C3 : sl3 c = sl1 c) by (apply F2; discriminate).
+    assert (HP : forall h, ckind h = true -> outside_c k h -> h <> c -> sl3 h = sl h).
+    { intros h Kh Oh N. rewrite (F3 h Kh (outside_c_mono _ _ _ L02 Oh) N). apply P3; assumption. }
+    exists sl3. split; [|split; [exact A3|]].
+    + apply run_one. destruct ob; try congruence.
+      * eapply RTryJ; [exact R1 | discriminate | exact R3].
+      * (* the body continued: in the lowered program it completes with the flag set and the else clause is skipped *)
+        destruct (P1 eq_refl) as [Ct ->]. simpl in R1.
+        replace (tr1 ++ tr3) with (tr1 ++ [] ++ tr3) by reflexivity.
+        eapply RTryN; [exact R1 | apply else_skipped, Ct | exact R3].
+      * eapply RTryJ; [exact R1 | discriminate | exact R3].
+      * eapply RTryJ; [exact R1 | discriminate | exact R3].
+      * eapply RTryJ; [exact R1 | discriminate | exact R3].
+    + split; [|split; [|exact HP]].
+      * intros E. destruct (P1 E) as [X ->]. split; [rewrite C3; exact X | reflexivity].
+      * intros N. rewrite C3. apply P2, N.
   - (* nil *) intros s d _ c k u cur sl Oc Kc A _. exists sl. simpl. split; [constructor|]. split; [exact A | apply cpost_refl; discriminate].
   - (* cons, first statement completes *)
     intros st r s d tr s1 d1 tr2 o2 s2 d2 _ IHs _ IHr Cl c k u cur sl Oc Kc A Pre.
@@ -313,12 +463,12 @@ Proof.
     pose proof (IHr Cr c k1 (u || h1) h1) as IR.
     destruct (cont_block c k1 (u || h1) h1 r) as [[r' k2] h2] eqn:E2. simpl in *.
     destruct IS as [sl1 [R1 [A1 [P1 [P2 P3]]]]].
-    { intros H; apply Pre; rewrite H; simpl; apply orb_true_r. }
+    { intros H; apply Pre; right; rewrite H; reflexivity. }
     assert (C1 : sl1 c = sl c) by (apply P2; discriminate).
     destruct (IR sl1 (outside_c_mono _ _ _ L1 Oc) Kc A1) as [sl2 [R2 [A2 [Q1 [Q2 Q3]]]]].
-    { intros H. rewrite C1. apply Pre. destruct cur; [reflexivity|]. simpl. exact H. }
+    { intros H. rewrite C1. apply Pre. destruct H as [H|H]; right; rewrite H; [reflexivity | apply orb_true_r]. }
     exists sl2. split; [|split; [exact A2|]].
-    + apply wrap; [intros ->; apply Pre; reflexivity | eapply run_bapp; eassumption].
+    + apply wrap; [intros ->; apply Pre; left; reflexivity | eapply run_bapp; eassumption].
     + split; [|split].
       * intros E. destruct (Q1 E) as [X ->]. split; [exact X | apply orb_true_r].
       * intros N. rewrite (Q2 N). exact C1.
@@ -331,9 +481,9 @@ Proof.
     pose proof (skip_rest r c k1 (u || h1)) as SK.
     destruct (cont_block c k1 (u || h1) h1 r) as [[r' k2] h2] eqn:E2. simpl in *.
     destruct IS as [sl1 [R1 [A1 [P1 [P2 P3]]]]].
-    { intros H; apply Pre; rewrite H; simpl; apply orb_true_r. }
+    { intros H; apply Pre; right; rewrite H; reflexivity. }
     exists sl1. split; [|split; [exact A1|]].
-    + apply wrap; [intros ->; apply Pre; reflexivity|].
+    + apply wrap; [intros ->; apply Pre; left; reflexivity|].
       destruct o; try congruence.
       * apply run_bapp_jump; [exact R1 | discriminate].
       * destruct (P1 eq_refl) as [Ct ->]. rewrite E2 in SK. simpl in SK, R1.
@@ -354,6 +504,6 @@ Theorem continue_lowering_correct_lemma b s d tr o s' d' :
 Proof.
   intros R C No sl A Pre.
   destruct (proj2 cont_correct_all _ _ _ _ _ _ _ R C (cflag 0) 1 false false sl (outside_c_S 0) (ckind_cflag 0) A) as [sl' [R' [A' _]]].
-  { simpl. exact Pre. }
+  { simpl. intros [H|H]; try discriminate. apply Pre, H. }
   exists sl'. split; [|exact A']. destruct o; try exact R'; congruence.
 Qed.
